@@ -32,6 +32,29 @@ where
 	Ok(child)
 }
 
+/// Get next available key under a given parent (account) path, which need not be
+/// the wallet's active account: an output booked under an account must also derive
+/// its key from that account's path, or a restore from seed finds it elsewhere
+pub fn next_available_key_for<'a, T: ?Sized, C, K>(
+	wallet: &mut T,
+	keychain_mask: Option<&SecretKey>,
+	parent_key_id: &Identifier,
+) -> Result<Identifier, Error>
+where
+	T: WalletBackend<'a, C, K>,
+	C: NodeClient + 'a,
+	K: Keychain + 'a,
+{
+	let active = wallet.parent_key_id();
+	if active == *parent_key_id {
+		return wallet.next_child(keychain_mask);
+	}
+	wallet.set_parent_key_id(parent_key_id.clone());
+	let res = wallet.next_child(keychain_mask);
+	wallet.set_parent_key_id(active);
+	res
+}
+
 /// Retrieve an existing key from a wallet
 pub fn retrieve_existing_key<'a, T: ?Sized, C, K>(
 	wallet: &T,
